@@ -357,13 +357,13 @@ impl H {
         let (n, p) = (self.bsorted[b as usize] as usize, self.bpend[b as usize]);
         let end = IDX_SORTED_START + IDX_ENTRY_SIZE * n;
         let at = end.div_ceil(UPDATE_SECTION_ALIGNMENT) * UPDATE_SECTION_ALIGNMENT;
-        format!("by the reference's count the .idx file of bucket {b} now holds {n} flushed entries (its sorted section ends at byte {end} = {IDX_SORTED_START} + {IDX_ENTRY_SIZE} x {n}; the update section belongs at the next multiple of {UPDATE_SECTION_ALIGNMENT}, byte {at}) and {p} pending update(s) behind them")
+        format!(".idx of bucket {b} by the reference's count: {n} flushed entries (sorted section ends at byte {end} = {IDX_SORTED_START}+{IDX_ENTRY_SIZE}x{n}, so the update section belongs at byte {at}, the next multiple of {UPDATE_SECTION_ALIGNMENT}) + {p} pending update(s)")
     }
 
     fn absent(&self, removed: &HashMap<K9, u32>, k: &K9) -> String {
         let cap = (MIN_UPDATE_SECTION_SIZE / UPDATE_PAGE_SIZE) * ENTRIES_PER_PAGE;
         match removed.get(k) {
-            Some(n) => format!("was removed (the successful remove was index mutation #{n} of bucket {} in this case; a bucket's update section holds {cap} entries in pages of {ENTRIES_PER_PAGE}; {})", bucket_of(k), self.layout(bucket_of(k))),
+            Some(n) => format!("was removed ({}; the successful remove was index mutation #{n} of {} of the bucket in this case; an update section holds {cap} entries in pages of {ENTRIES_PER_PAGE})", self.layout(bucket_of(k)), self.bmut[bucket_of(k) as usize]),
             None => "was never written".to_string(),
         }
     }
@@ -371,8 +371,8 @@ impl H {
     /// where a written object sits in the history of its index bucket (for failure messages)
     fn place(&self, k: &K9, o: &Obj) -> String {
         let cap = (MIN_UPDATE_SECTION_SIZE / UPDATE_PAGE_SIZE) * ENTRIES_PER_PAGE;
-        format!("its write was index mutation #{} of {} of bucket {} in this case, {} later write(s) followed, reopened since: {}; a bucket's update section holds {} entries in pages of {}; {}",
-            o.nth, self.bmut[bucket_of(k) as usize], bucket_of(k), o.later_writes, o.reopened, cap, ENTRIES_PER_PAGE, self.layout(bucket_of(k)))
+        format!("{}; the key's write was index mutation #{} of {} of the bucket in this case, {} later write(s) followed, reopened since: {}; an update section holds {} entries in pages of {}",
+            self.layout(bucket_of(k)), o.nth, self.bmut[bucket_of(k) as usize], o.later_writes, o.reopened, cap, ENTRIES_PER_PAGE)
     }
 
     fn when(o: &Obj) -> &'static str {
@@ -1479,7 +1479,7 @@ fn main() {
     let args = Args::parse();
     quiet_panics();
     let mut s = Session::new(&args.out);
-    s.rule = "seeded histories on the real DynamicContainer (with a ResidencyContainer), Installation and ArchiveManager, one temp dir per case: 1..14 writes whose sizes follow a programme (large-then-small, slowly growing, equal, file exactly doubling +-1, empty payloads between others, one big then many tiny, random; every 9th case 20-70 KB payloads) with payload classes random / constant fill / 'BLTE'+garbage / 'BLTE' at 0x1E / whole valid BLTE file (N, Z, LZ4) / image of a local entry (30-byte header + BLTE) / the 49-byte witness shape; interleaved reads of earlier keys (own tail or foreign tail after the 9-byte prefix, absent keys; buffer = len, len-1, 0, len/2, len+64), queries, removes, flush/flushall, reopen (drop + new + open/initialize), residency-mark and entry counts; final sweep reads every key; fill cases (dyn and inst): payloads crafted by search so that their index key (MD5-derived) falls into ONE chosen bucket, driving that bucket's update section through its page boundaries (8 cases: 1-4 pages, stations at k*per_page-1, k*per_page, +1, +2) and its capacity (3 cases: cap-1, cap, cap+1 = the mutation that finds the section full and flushes implicitly, cap+2; pure writes on a DynamicContainer, writes on an Installation, and a DynamicContainer case with a flushed prefix, noise in other buckets, mid-fill reopens and the overflowing mutation being a remove; thorough also the second overflow at 2*cap+1) - at every station the store is dropped and opened again BEFORE any further mutation of the bucket, then every key of the bucket is queried (newest first), the newest 24 / oldest 3 / 16 random ones and the removed ones are read, entry_count is compared, and the case ends with a full read+query sweep; sorted-section size cases (the update section of a bucket's .idx file lies at the next multiple of UPDATE_SECTION_ALIGNMENT = 64 KiB behind the 40 + 18 x n bytes of the n FLUSHED entries, computed by save_index and by load_index each on its own: 65536 up to n = 3638, 131072 from n = 3639, 196608 from n = 7280): one DynamicContainer case fills one bucket (payload search; a few removes on the way) to crossing-1 = 3638 keys, then flush(bucket) at exactly 3638 / 3639 / 3640 / 3641 keys, each followed by 1-3 pending mutations (write, or write+remove+write) resp. 2..2*per_page+1 pending ones with removes, then drop + open and a sweep (every key of the bucket by query at 3639, 3641 and at the end, otherwise the newest 64 - which include every pending one - and 64 random ones; every removed key; newest 24 / oldest 3 / 16 random keys by read; entry_count), then appends to the RELOADED update section + reopen + sweep, then flush + reopen + sweep (file without update section); one Installation case (no flush there) writes 3*capacity+2 pages into one bucket so that the third implicit merge (mutation 3781) takes the sorted section to 3780 entries, with reopen + sweep at 3780 (section full, 2520 sorted: still below the boundary), 3781, 3782 and in the second page; thorough also the DynamicContainer implicit-merge variant with noise, and the next boundary (7279..7282 flushed entries exactly; Installation to 6*capacity+1) with every key read at the end; arch stream: modes N/Z/LZ4, read_content / read_raw of exact entries, header-less BLTE slice, short slices, ranges beyond the mapping, unknown archive, reopen; non-trivial = the case read a key written before a later write, or after a reopen, or a BLTE-shaped payload; distinct = canonical request text of the case".into();
+    s.rule = "seeded histories on the real DynamicContainer (with a ResidencyContainer), Installation and ArchiveManager, one temp dir per case: 1..14 writes whose sizes follow a programme (large-then-small, slowly growing, equal, file exactly doubling +-1, empty payloads between others, one big then many tiny, random; every 9th case 20-70 KB payloads) with payload classes random / constant fill / 'BLTE'+garbage / 'BLTE' at 0x1E / whole valid BLTE file (N, Z, LZ4) / image of a local entry (30-byte header + BLTE) / the 49-byte witness shape; interleaved reads of earlier keys (own tail or foreign tail after the 9-byte prefix, absent keys; buffer = len, len-1, 0, len/2, len+64), queries, removes, flush/flushall, reopen (drop + new + open/initialize), residency-mark and entry counts; final sweep reads every key; fill cases (dyn and inst): payloads crafted by search so that their index key (MD5-derived) falls into ONE chosen bucket, driving that bucket's update section through its page boundaries (8 cases: 1-4 pages, stations at k*per_page-1, k*per_page, +1, +2) and its capacity (3 cases: cap-1, cap, cap+1 = the mutation that finds the section full and flushes implicitly, cap+2; pure writes on a DynamicContainer, writes on an Installation, and a DynamicContainer case with a flushed prefix, noise in other buckets, mid-fill reopens and the overflowing mutation being a remove; thorough also the second overflow at 2*cap+1) - at every station the store is dropped and opened again BEFORE any further mutation of the bucket, then every key of the bucket is queried (newest first), the newest 24 / oldest 3 / 16 random ones and the removed ones are read, entry_count is compared, and the case ends with a full read+query sweep; sorted-section size cases (the update section of a bucket's .idx file lies at the next multiple of UPDATE_SECTION_ALIGNMENT = 64 KiB behind the 40 + 18 x n bytes of the n FLUSHED entries, computed by save_index and by load_index each on its own: 65536 up to n = 3638, 131072 from n = 3639, 196608 from n = 7280): one DynamicContainer case fills one bucket (payload search; a few removes on the way) to crossing-1 = 3638 keys, then flush(bucket) at exactly 3638 / 3639 / 3640 / 3641 keys, each followed by 1-3 pending mutations (write, or write+remove+write) resp. 2..2*per_page+1 pending ones with removes, then drop + open and a sweep (every key of the bucket by query at 3639, 3641 and at the end, otherwise the newest 64 - which include every pending one - and 64 random ones; every removed key; newest 24 / oldest 3 / 16 random keys by read; entry_count), then appends to the RELOADED update section + reopen + sweep, then flush + reopen + sweep (file without update section); one Installation case (no flush there) writes 3*capacity + a second page of entries into one bucket so that the third implicit merge (mutation 3781) takes the sorted section to 3780 entries, with reopen + sweep at 3780 (section full, 2520 sorted: still below the boundary), 3781, 3782 and in the second page; thorough also the DynamicContainer implicit-merge variant with noise, and the next boundary (7279..7282 flushed entries exactly; Installation to 6*capacity+1) with every key read at the end; arch stream: modes N/Z/LZ4, read_content / read_raw of exact entries, header-less BLTE slice, short slices, ranges beyond the mapping, unknown archive, reopen; non-trivial = the case read a key written before a later write, or after a reopen, or a BLTE-shaped payload; distinct = canonical request text of the case".into();
     let mut rng = Rng::new(args.seed);
     let rt = tokio::runtime::Builder::new_current_thread().enable_all().build().expect("runtime");
     let h = H { mode: Mode::None, rt, trace: vec![], failed: false, st_hist_reads: 0, st_reopen_reads: 0, st_blte_reads: 0, st_small_after_large: 0, last_total: 0, bmut: [0; 16], bsorted: [0; 16], bpend: [0; 16], blive: [0; 16] };
